@@ -76,6 +76,14 @@ def docenc_tool(ctx, args, data):
 
 
 def run(ctx):
+    huge = pvlib.HugeB64(ctx).start()
+    try:
+        run_small(ctx)
+    finally:
+        huge.finish("b64-huge")
+
+
+def run_small(ctx):
     # ---- encode
     encs = list(dict.fromkeys(enc_cases(ctx)))
     ops = ["b64.enc " + hx(x) for x in encs]
